@@ -43,11 +43,19 @@ func (r *BatchedTokenRequest) Unmarshal(data []byte) bool {
 	}
 
 	l, offset := quicwire.ConsumeVarint(data)
+	if offset < 0 || l > uint64(len(data)-offset) {
+		return false
+	}
+	// Only the declared list is parsed
+	data = data[:offset+int(l)]
 
 	r.token_requests = make([]tokens.TokenRequestWithDetails, 0)
 	i := offset
 	for i < offset+int(l) {
 		var token_request tokens.TokenRequestWithDetails
+		if len(data)-i < 2 {
+			return false
+		}
 		token_type := binary.BigEndian.Uint16(data[i : i+2])
 		switch token_type {
 		case type1.BasicPrivateTokenType:
